@@ -79,16 +79,10 @@ def treeRead (c : TCfg) (top : Bool) (scope : List Seg) : Ty → JVal → TRes V
         | .obj kvs => treeReadEntries c scope (.record fields) [] [] kvs
         | _ => .err .syntax
       bindT body (fun r m =>
-        let fs := r.1
-        let seen := r.2
-        let required := (fields.filter (fun f => !f.optOrDefault)).map (·.name)
-        let remaining := required.filter (fun q => !seen.contains q)
-        let reported := remaining.filter (fun q => c.tracker.check (scope ++ [.key q]) != .yes)
-        let prefix_ := let sc := scopeString scope; if sc.isEmpty then sc else sc ++ [46]
-        let missing := m ++ reported.map (prefix_ ++ ·)
-        if remaining.any (fun q => c.tracker.check (scope ++ [.key q]) == .panic) then .panic
-        else if top && !missing.isEmpty then .err (.missing missing (.record fs))
-        else .ok (.record (populateDefaults own fs)) missing)
+        match finishRecord c.env c.tracker scope top fields own r.1 r.2 m with
+        | .panic => .panic
+        | .missingErr ps v => .err (.missing ps v)
+        | .ok v m' => .ok v m')
     | some (.union hasNull members) =>
       let body : TRes (List (Bytes × Value) × List Bytes) :=
         match t with
@@ -123,7 +117,7 @@ def treeReadEntries (c : TCfg) (scope : List Seg) (mode : MapMode) (acc : List (
             if !seen.isEmpty then .err .union
             else match members.lookup k with
               | some ty => bindT (treeRead c false scope' ty v) (fun x m => .ok (setEntry acc k x) m)
-              | none => .err .syntax     -- the value is left unread: the lexer then fails on it
+              | none => .err .union      -- `default:` of the generated switch: unknown member
         bindT r (fun acc' m1 =>
           bindT (treeReadEntries c scope mode acc' (seen ++ [k]) rest) (fun res m2 => .ok res (m1 ++ m2)))
 def treeReadItems (c : TCfg) (scope : List Seg) (ty : Ty) (index : Nat) : List JVal → TRes (List Value)
